@@ -232,6 +232,16 @@ def gen_case(rng, pid, tier):
                 ops.append(['unsched', i, h, inst])
             else:
                 # the terminal event of a container is published; meanwhile the master may move the instance
+                import random as _random
+                if _random.Random(repr(rng.getstate()[1][:4])).random() < 0.3:
+                    # (side stream) the session expires between the placement check and the delete; the master
+                    # moves the instance; whatever the client library does next, the decision is stale
+                    ops.append(['publish', i, h, inst, 'cutdelete'])
+                    ops.append(['expire', i, 1])
+                    ops.append(['envdel', '/placement/%s/%s#%010d' % (host_name(h), APP, inst)])
+                    ops.append(['envput', '/placement/%s/%s#%010d' % (host_name(h % n + 1), APP, inst), ''])
+                    ops.append(['run', i])
+                    continue
                 ops.append(['publish', i, h, inst])
                 for _ in range(rng.randint(0, 3)):
                     x = rng.random()
@@ -645,7 +655,7 @@ def run_impl(case, pid):
                 # a container's terminal trace event: trace.app.zk.publish writes the event and the exit summary
                 # (untracked nodes; other clients may act between those writes), then `_unschedule`s the instance
                 # if it is still placed here - check and delete run without interleaving, as for `unsched`
-                _, _i, h, inst = op
+                _, _i, h, inst = op[:4]
                 if proc.busy:
                     continue
                 iid = '%s#%010d' % (APP, inst)
@@ -657,6 +667,15 @@ def run_impl(case, pid):
                 run.tags.add('publish')
                 start(proc, {'kind': 'unsched', 'site': 'publish', 'placement': pl, 'scheduled': sc, 'publish': True}, _pub)
                 emit('start %d unsched %d %d' % (proc.idx, names(pl), names(sc)))
+                if len(op) > 4 and op[4] == 'cutdelete':
+                    # run up to the point where the delete of /scheduled/<instance> is about to be sent (the
+                    # placement check has passed) and stop there: the next op expires the session
+                    while proc.busy and proc.pending != ('delete', sc):
+                        was_untracked = untracked(proc.pending[1])
+                        step(proc)
+                        emit(('ustep %d' if was_untracked else 'step %d') % proc.idx)
+                    run.tags.add('publish-stopped-before-delete' if proc.busy else 'publish-nothing-to-delete')
+                    continue
                 pub_advance(proc)
             elif k == 'step':
                 if proc.busy and proc.req.get('publish'):
